@@ -81,6 +81,9 @@ def beh? : Sexp → Option Beh
 def input? : Sexp → Option Input
   | .list [.atom "history", ops] => (list? op? ops).map .history
   | .list [.atom "runUser", b] => (beh? b).map .runUser
+  -- a realisation hint for the harness (which stage behaves like that; cleanups registered with keyword arguments): the outcome
+  -- the model gives does not depend on it
+  | .list [.atom "runUser", b, _] => (beh? b).map .runUser
   | _ => none
 
 def extracted? : Sexp → Option Extracted
